@@ -3,7 +3,7 @@ CONSTANTS
   Keys = {"a", "b", "c"}
   MaxIdx = 4
   N = 3
-  EmitOneIn = 1
+  EmitOneIn = 4
   Kind = "list"
 SPECIFICATION Spec
 INVARIANTS Laws Emit
